@@ -131,11 +131,15 @@ def writer_campaign(tier: str, seed: int, *, sims=None, n_beh=None, hist_len=Non
                 case = Case({"universe": uni, "entry": cfg["entry"], "sub": sub.label, "delimited": cfg["delimited"],
                              "frame_size": cfg["frame_size"], "as_sink": cfg.get("as_sink", True), "beh": bi}, items)
                 case.delimited = cfg["delimited"] if cfg["entry"] == "stream_frames" else True
+                if cfg["entry"] == "grouped_to_file" and len(stmts) >= 3:
+                    # several sinks through ONE stream: lookup tables and repeated terms carry over from sink to sink
+                    k1, k2 = len(stmts) // 3, 2 * len(stmts) // 3
+                    cfg = dict(cfg, groups=[stmts[:k1], stmts[k1:k2], stmts[k2:]])
                 try:
                     case.data = impl.serialize(cfg, stmts, ns_unique)
                 except Exception as ex:  # noqa: BLE001
                     case.exc = f"{type(ex).__name__}: {ex}"
-                case.replay = {"cfg": {k: v for k, v in cfg.items()}, "statements": stmts, "namespaces": ns_unique}
+                case.replay = {"cfg": {k: v for k, v in cfg.items() if k != "groups"}, "statements": stmts, "namespaces": ns_unique, "sinks": 3 if "groups" in cfg else 1}
                 cases.append(case)
 
     # long deterministic workloads that wrap tables of 128 / 256 / 4096 entries (ids crossing the one-byte varint limit and the 4096 cap)
